@@ -1179,6 +1179,9 @@ class ContainerProperty(_ElementBase):
                 if MANDATORY_VALUE_CHECKING and not self.is_optional:
                     raise ValueError(f'mandatory value {self._sub_element_name} missing')  # noqa: EM102
                 etree.SubElement(node, self._sub_element_name, nsmap=node.nsmap)
+        elif self._sub_element_name is None:
+            # the container is represented by the node itself (this is also how it is read)
+            py_value.update_node(node, self._ns_helper, set_xsi_type=py_value.NODETYPE != self.value_class.NODETYPE)
         else:
             self.remove_sub_element(node)
             sub_node = py_value.mk_node(self._sub_element_name, self._ns_helper, node)
